@@ -1,6 +1,7 @@
 import FlatModel.Props.C06
 import FlatModel.Props.C06Bits
 import FlatModel.Props.C06Opt
+import FlatModel.Props.C06Region
 #print axioms FC.C06.optimal
 #print axioms FC.C06.optimal'
 #print axioms FC.C06.optimal_nat
@@ -33,3 +34,14 @@ import FlatModel.Props.C06Opt
 #print axioms FC.C06.createFrom_good
 #print axioms FC.C06.roundtrip_merged
 #print axioms FC.Huff.canonBits_eq_bitsOfCode
+#print axioms FC.C06.roundtrip
+#print axioms FC.C06.roundtrip_u8
+#print axioms FC.C06.refused
+#print axioms FC.C06.frame
+#print axioms FC.C06.frame_u8
+#print axioms FC.C06.stats_valid
+#print axioms FC.C06.merged_stats_valid
+#print axioms FC.C06.merge_inv
+#print axioms FC.C06.merge_inv_built
+#print axioms FC.C06.built_inv
+#print axioms FC.C06.accepts_merged
